@@ -519,6 +519,7 @@ type exec struct {
 	toldBefore     map[string]res  // told-view of every container before the last event
 	replyChanged   []string        // C15: replies that changed between the handler's return and their consumption
 	rejectedLabels map[string]bool // labels of the configuration updates refused so far
+	failedKinds    map[string]bool // kinds of requests the plugin has refused so far
 }
 
 type addressed struct {
@@ -871,6 +872,12 @@ func (x *exec) step(ev string) *reply {
 	default:
 		panic("unknown event " + ev)
 	}
+	if rp.err != nil && rp.panic == "" && x.evIndex >= 0 {
+		if x.failedKinds == nil {
+			x.failedKinds = map[string]bool{}
+		}
+		x.failedKinds[f[0]] = true
+	}
 	return rp
 }
 
@@ -1165,6 +1172,15 @@ func (x *exec) snapshot() *snap {
 	// state with the one that never saw the update would keep the search from ever exploring its consequences)
 	if names := cachepkg.VerifImplicitAffinities(x.rawCache()); len(names) > 0 {
 		s.World = append(s.World, "implicit-affinities="+strings.Join(names, ","))
+	}
+	if len(x.failedKinds) > 0 {
+		// refused requests are where invisible leftovers come from: a state reached through one is kept apart
+		var ks []string
+		for k := range x.failedKinds {
+			ks = append(ks, k)
+		}
+		sort.Strings(ks)
+		s.KeyOnly = append(s.KeyOnly, "refused-requests="+strings.Join(ks, ","))
 	}
 	if len(x.rejectedLabels) > 0 {
 		var ls []string
